@@ -109,3 +109,20 @@ Proof.
   - apply minv_init. exact Hcfg.
   - pose proof (wf_max _ Hcfg). cbn. lia.
 Qed.
+
+(* STATEMENT (C10 / C03 at every state of every interleaving of the micro steps of puts, deletes and reads): a sweep spares
+   every key that has no time-to-live, whose expiry has not passed, or whose expiry belongs to another shard *)
+Lemma micro_sweep_spares : forall cfg evs k e, wf_config cfg -> Forall plain_micro evs ->
+  let ms := mrun cfg evs in
+  worker (mbase ms) <> Dead -> sweeper (mbase ms) = Alive ->
+  alookup k (store (mbase ms)) = Some e ->
+  (e_exp e = None \/ (exists t, e_exp e = Some t /\ now (mbase ms) <= t) \/
+   (exists t, e_exp e = Some t /\ shard_index cfg t <> shard_index cfg (now (mbase ms)))) ->
+  alookup k (store (mbase (fst (mstep cfg ms (MWin (WBase ESweep)))))) = Some e.
+Proof.
+  intros cfg evs k e Hcfg Hall ms Hnd Hsw Hl Hexp. subst ms.
+  pose proof (minv_run cfg evs Hcfg Hall Hnd) as HM.
+  rewrite (mwin_base_eq cfg _ ESweep (mi_ups cfg _ HM) (mi_wp cfg _ HM)).
+  cbn [mwin_enabled fst mbase with_mbase win with_base base].
+  exact (sweep_spares_closed cfg _ k e Hcfg (mi_inv cfg _ HM) Hsw Hl Hexp).
+Qed.
